@@ -1090,10 +1090,12 @@ def arbexh_alphabet():
 # ============================================================================================
 
 def theorems_or_skip(chk, module, theorems, env):
-    if os.environ.get(env, '') == '1':
-        chk.notes.append(f'{env}=1: proof obligations of {module} were NOT checked in this run (development switch)')
-        return
+    """Proof obligations are ALWAYS checked (the former development switch is gone)."""
     chk.require_theorems(module, theorems)
+    from harness import e2e_theorems
+    extra = {'Properties.C06': e2e_theorems.THEOREMS_C06, 'Properties.C03': e2e_theorems.THEOREMS_C03}.get(module)
+    if extra:
+        chk.require_theorems('Properties.E2E', extra)    # end-to-end composition (string level)
 
 
 def driver_exe(chk):
